@@ -47,7 +47,7 @@ def check_vectors(report: List[str]) -> bool:
     ok &= clean == 0 and caught == len(sample)
     # C17: swap the predicted outcome
     vecs = [v for v in _vectors("Decorators", "mc/MC_Decorators_quick.cfg") if v.get("kind") == "deco"]
-    sample = [v for v in vecs if v["sc"]["kind"] == "function" and v["sc"]["dfpass"] == "pos" and v["sc"]["getter"] != "int"][:60]
+    sample = [v for v in vecs if v["sc"]["kind"] == "function" and v["sc"]["dfpass"] == "pos" and v["sc"]["getter"] != "int" and v["sc"]["data"] != "stale"][:60]
     obs = pool.replay(sample, "vf.obs_decorators", "observe_deco", nproc=4)
     clean = sum(1 for v, o in zip(sample, obs) if c17.compare(v, o).mismatches)
     caught = 0
@@ -112,14 +112,14 @@ def check_tables(report: List[str]) -> bool:
     tmp = tempfile.mkdtemp(prefix="vf-selftest-")
     try:
         doc = c09._record("numpy", "-", tmp)
-        i64 = next(i for i, k in enumerate(doc["keys"]) if k["sp"] == "'int64'")
-        f64 = next(i for i, k in enumerate(doc["keys"]) if k["sp"] == "'float64'")
-        doc["res"][i64] = doc["res"][f64]              # "int64" now resolves to the float64 type
+        i64 = next(i for i, k in enumerate(doc["keys"]) if k["sp"] == "numpy.int64")
+        f64 = next(i for i, k in enumerate(doc["keys"]) if k["sp"] == "numpy.float64")
+        doc["res"][i64] = doc["res"][f64]              # numpy.int64 now resolves to the float64 type
         p = os.path.join(tmp, "tables.json")
         json.dump([doc], open(p, "w"))
         res = tlc.run_tlc("Dtypes", "mc/MC_Dtypes_laws.cfg", workers=2, env={"DTYPES_FILE": p})
         hit = {v["law"]: v["count"] for v in res.vectors if v.get("kind") == "law" and v["count"]}
-        report.append("Dtypes: 'int64' redirected to float64 -> laws with witnesses %s" % hit)
+        report.append("Dtypes: numpy.int64 redirected to float64 -> laws with witnesses %s" % hit)
         ok &= "EquivalentsEqual" in hit and "ResolutionConforms" in hit
         # Coerce: empty a failure-case set
         res = tlc.run_tlc("Coerce", "mc/MC_Coerce_enum_quick.cfg", workers=1)
